@@ -58,6 +58,8 @@ MUTANTS = [
         # Comment''', '''            shutil.rmtree(build_dir, ignore_errors=True)
             os.unlink(lock)
         # Comment''')]),
+    ("c18_copy_fallback_when_rename_fails", "C18", 1, [(K, '''                if not os.path.exists(dll):
+                    raise''', '''                shutil.copyfile(output, dll)''')]),
     ("c18_in_place_compile", "C18", 1, [(K, "            output = joinpath(build_dir, os.path.basename(dll))",
                                          "            output = dll")]),
     ("c18_benign_pid_build_dir", "C18", 0, [(K, BUILD_OPEN, '''        build_dir = joinpath(os.path.dirname(dll), "build_%d"%os.getpid())
